@@ -278,6 +278,7 @@ def run(chk):
     marker_drop(chk, prog)
     for sb, blk, c in recovery:
         recovery_rules(chk, prog, c)
+    execute_after_start(chk, prog, "A")
     # ---- execute sends exactly one Function message
     ex = prog.bodies.get("humphrey::thread::pool::ThreadPool::execute")
     chk.floor("ThreadPool::execute", 1 if ex else 0, 1)
@@ -499,3 +500,34 @@ def _typing_witness(chk):
     ok, res = witness.run("C08")
     chk.extra["typing_witness"] = res
     chk.ob("R1.typing_witness", "witness/typing", "a received task cannot be called twice (compile_fail E0382 + compiling twin)", ok, "Task is no longer consumed by its call: at-most-once is not guaranteed by the type: " + str(res)[:300])
+
+
+def execute_after_start(chk, prog, cfg="A"):
+    """R1.execute_after_start: "execute follows start" at every site of the workspace that submits to a pool: the `ThreadPool::execute` call is
+    dominated by `ThreadPool::start` on the same pool in its own function, or — in a closure that captured the pool — the closure is built
+    after the parent's `start()` on every path.  (A `start()` made conditional on which handlers are registered leaves an `execute` that
+    asserts on a pool that was never started.)"""
+    n = 0
+    from ..inline import owner_fn
+    newf = set(getattr(prog, "new_functions", []) or [])
+    for p, b in sorted(prog.bodies.items()):
+        if "promoted" in p or p.startswith("humphrey::thread::pool::") or owner_fn(p) in newf:
+            continue        # (a helper that is new relative to the pinned tree is looked at where it was inlined)
+        for blk, t in b.calls_to(r"thread::pool::ThreadPool::execute$"):
+            n += 1
+            d = core.describe(prog, b, t["args"][0])
+            starts = [sb for sb, st in b.calls_to(r"thread::pool::ThreadPool::start$")]
+            ok = any(b.dominates(sb, blk) for sb in starts)
+            how = "start() dominates the call"
+            if not ok and b.kind == "closure":
+                site = core.closure_site(prog, b)
+                if site:
+                    host, hb = site
+                    hs = [sb for sb, st in host.calls_to(r"thread::pool::ThreadPool::start$|app::App::<State>::start_thread_pool$")]
+                    newf = set(getattr(prog, "new_functions", []) or [])
+                    ok = any(host.dominates(sb, hb) for sb in hs)
+                    how = "the closure is built after the parent's start()"
+            chk.ob("R1.execute_after_start", p, "ThreadPool::execute is reached only after start() on that pool", ok,
+                   "a task can be submitted to a pool that was not started on this path: execute asserts `started` and panics in the submitting thread" if not ok else how,
+                   where=b.where(blk), cfg=cfg)
+    chk.floor(f"ThreadPool::execute sites outside the pool [{cfg}]", n, 3)
